@@ -147,12 +147,12 @@ def build_runtime(workdir: str) -> str:
     return obj
 
 
-def build_version(workdir: str, c_file: str, header: str, rt_obj: str, tag: str, root) -> str:
+def build_version(workdir: str, c_file: str, header: str, rt_obj: str, tag: str, root, extra_c=()) -> str:
     shim = os.path.join(workdir, "shim_%s.c" % tag)
     with open(shim, "w") as f:
         f.write(gen_shim(header, root))
     so = os.path.join(workdir, "lib_%s.so" % tag)
-    p = subprocess.run(["gcc"] + CFLAGS + ["-shared", "-o", so, c_file, shim, rt_obj, "-I", REPO + "/lib/c", "-I", os.path.dirname(header)], capture_output=True, text=True)
+    p = subprocess.run(["gcc"] + CFLAGS + ["-shared", "-o", so, c_file] + list(extra_c) + [shim, rt_obj, "-I", REPO + "/lib/c", "-I", os.path.dirname(header)], capture_output=True, text=True)
     if p.returncode != 0:
         raise CBuildError("generated C does not compile: " + p.stderr[-1500:])
     return so
